@@ -1,0 +1,14 @@
+//go:build verif
+
+package sfnt
+
+import (
+	"seehuhn.de/go/sfnt/cmap"
+	"seehuhn.de/go/sfnt/opentype/gtab"
+)
+
+// VerifC01StandardLigatures exposes standardLigatures (the GSUB table Read synthesises for
+// proportional fonts without a GSUB table) to the verification harness.
+func VerifC01StandardLigatures(c cmap.Subtable) *gtab.Info {
+	return standardLigatures(c)
+}
